@@ -21,7 +21,8 @@
   * `sdr_chunk_*`            busy/timeout retry + reservation renewal (∀ budgets)
   * `clear_repository_*`     reservation renewal while erasing (∀ budgets)
   * `hpm_and_wait_*`, `upload_binary_*`   HPM in-progress polling (∀ block lists)
-  * `read_fru_exact`, `read_fru_*`, `op_read_fru_data_*`   FRU size back-off (∀ areas, sizes, offsets)
+  * `read_fru_exact`, `read_fru_*`, `op_read_fru_data_*`, `read_fru_range_multi_safe`,
+    `read_fru_area_multi_safe`   FRU size back-off (∀ areas, sizes, offsets); the area reader
   * `sel_entry_exact`, `sel_entry_multi_safe`, `sel_entry_fault_safe`   get_sel_entry: FFh → 16 → 15 …
                              on CAh; any fault set with at most 16 answers CAh
   * `listing_multi_safe`, `sel_entries_multi_safe`, `sdr_entries_multi_safe`   the listing loops
@@ -264,6 +265,26 @@ theorem op_read_fru_data_multi_safe (Φ : (Nat → Option Nat) → Prop) (info :
     (fuel reqSize : Nat) (hf : areaOf (base info) + reqSize + 1 ≤ fuel) (hrs : 1 ≤ reqSize) :
     MultiSafeOn Φ base (readFruData info areaOf mk cnt pay back fuel reqSize) :=
   readFruData_ms Φ info areaOf mk cnt pay back base store hdev fuel reqSize hf hrs
+
+/-- read_fru_data(offset, count) under any fault set. -/
+theorem read_fru_range_multi_safe (Φ : (Nat → Option Nat) → Prop) (mk : Nat → Nat → Req) (cnt : Rsp → Nat)
+    (pay : Rsp → List Nat) (back : List Nat) (base : Req → Rsp) (store : List Nat)
+    (reqSize fuel off count : Nat) (hdev : FruStorage mk cnt pay (off + count) base store)
+    (hf : count + reqSize + 1 ≤ fuel) (hrs : 1 ≤ reqSize) :
+    MultiSafeOn Φ base (readFruRange mk cnt pay back reqSize fuel off count) :=
+  readFruRange_ms mk cnt pay back base store Φ reqSize fuel off count hdev hf hrs
+
+/-- fru._read_fru_area (the reader under get_fru_chassis_area / board / product) under any fault
+set, on a device that serves every read inside its `N` bytes and whose area lies inside them:
+the area's bytes, or an error carrying an injected code -- never the bytes of a shorter read. -/
+theorem read_fru_area_multi_safe (Φ : (Nat → Option Nat) → Prop) (mk : Nat → Nat → Req) (cnt : Rsp → Nat)
+    (pay : Rsp → List Nat) (back : List Nat) (base : Req → Rsp) (store : List Nat)
+    (N reqSize fuel off : Nat)
+    (hdev : ∀ area, area ≤ N → FruStorage mk cnt pay area base store)
+    (h5 : off + 5 ≤ N) (harea : off + ((store.drop off).take 5).getD 1 0 * 8 ≤ N)
+    (hf : ((store.drop off).take 5).getD 1 0 * 8 + reqSize + 6 ≤ fuel) (hrs : 1 ≤ reqSize) :
+    MultiSafeOn Φ base (readFruArea mk cnt pay back reqSize fuel off) :=
+  readFruArea_ms mk cnt pay back base store Φ N reqSize fuel off hdev h5 harea hf hrs
 
 /-! ### sel.get_sel_entry, sel_entries, get_and_clear_sel_entry -/
 
@@ -694,6 +715,11 @@ example : outcome (readFru demoMk (·.data.headD 0) (·.data.tail) [0xC8, 0xC9, 
     (faultDev demoFru 1 0xCA) 0 = .ok demoStore := by decide
 example : outcome (readFru demoMk (·.data.headD 0) (·.data.tail) [0xC8, 0xC9, 0xCA] 10 12 0 4 [])
     (faultDev demoFru 1 0xC1) 0 = .error (.ccError 0xC1) := by decide
+
+-- the demo device serves every area inside its 10 bytes (hypothesis of read_fru_area_multi_safe)
+example : ∀ area, area ≤ 10 → FruStorage demoMk (·.data.headD 0) (·.data.tail) area demoFru demoStore := by
+  intro area _ off n _ _
+  simp [demoMk, demoFru]
 
 -- the table has operations of every kind the theorems talk about
 example : (table.filter fun op => op.pub && isCheckedShape op.shape).length ≥ 100 := by decide
